@@ -266,8 +266,9 @@ func (ex *Exec) call(fr *Frame, st *State, instr ssa.Value, com *ssa.CallCommon,
 	}
 	fn := fv.Fn.Fn
 	name := fn.String()
-	if isDenied(name) {
+	if isDenied(name) && !onlyFeedsTelemetry(in) {
 		// wall clock / randomness / OS: must be unreachable in a function under contract
+		// (a value consumed only by cosmos-sdk telemetry is metrics, not state: same exemption as the C01 frame check)
 		ex.addObl("frame", "denied-call-"+sanitizeLabel(name), ex.propsOf(), st, "false", ex.pos(in), "call of "+name+" must be unreachable (nondeterminism source)")
 	}
 	if m, ok := goModels[name]; ok {
